@@ -9,6 +9,7 @@ from ..viol import Violation, require
 ID = 'C16'
 LEVEL = 'exploration'
 RULE = (
+    'Names may be numbers (the parser turns them into int). '
     'Variable names include legal names spelled like the keywords of the format (mode, add, ids, ver, nvars, dd ...); some loads are preceded by a load of a damaged file that fails. '
     'R: the harness writes text-mode DDDMP files from Hypothesis-drawn '
     'parameters: 1-3 root functions over <=5 named variables (reduced DAG '
